@@ -82,7 +82,7 @@ impl JwkStorage for StrongholdStorage {
           .with_source(err)
       })?;
     let public_key: Vec<u8> = procedure_result.into();
-    persist_changes(self.as_secret_manager(), stronghold).await?;
+    persist_new_key(self, stronghold, &key_id).await?;
 
     let mut params = JwkParamsOkp::new();
     params.x = jwu::encode_b64(public_key);
@@ -148,7 +148,7 @@ impl JwkStorage for StrongholdStorage {
           .with_source(err)
       })?;
 
-    persist_changes(self.as_secret_manager(), stronghold).await?;
+    persist_new_key(self, stronghold, &key_id).await?;
 
     Ok(key_id)
   }
